@@ -372,7 +372,12 @@ func init() {
 // ---- ppmap stage: the pp binary built from the same overlay ------------------
 
 func runPP(bin string, b []byte, ex *C06Extra, mode string) (string, error) {
+	cwd := ""
+	if m, c, ok := strings.Cut(mode, "|cwd="); ok {
+		mode, cwd = m, c
+	}
 	cmd := exec.Command(bin, ex.Flags...)
+	cmd.Dir = cwd
 	cmd.Stdin = bytes.NewReader(b)
 	env := []string{"VERIF_MAPORDER=" + mode, "HOME=/nonexistent", "TERM=dumb", "PATH=/usr/bin:/bin"}
 	if ex.Dir != "" {
@@ -470,6 +475,10 @@ func postC06(seed uint64, tier string, cov *Cov) ([]*Violation, map[string]any, 
 			ex = &C06Extra{}
 		}
 		ex.Modes = []string{"sorted@0", "reverse@0", fmt.Sprintf("perm@%d", r.Intn(1000000)), "@0"}
+		if ex.Dir != "" {
+			// the same run started from other working directories (inside the tree)
+			ex.Modes = append(ex.Modes, "sorted@0|cwd="+ex.Dir+"/mod", "sorted@0|cwd="+ex.Dir+"/gopath1/src")
+		}
 		ex.Flags = flagSets[r.Intn(len(flagSets))]
 		doc := gen.GenerateSimilar(r, gen.SimilarCfg{Groups: r.Range(1, 5), MaxPerGrp: []int{1, 2, 4, 8}[r.Intn(4)], Files: files, Shuffle: r.Chance(0.5)})
 		exj, _ := json.Marshal(ex)
@@ -480,5 +489,5 @@ func postC06(seed uint64, tier string, cov *Cov) ([]*Violation, map[string]any, 
 			}
 		}
 	}
-	return vs, map[string]any{"ppmap_stage": fmt.Sprintf("%d inputs x 4 map orders on the pp binary built from the same overlay (flags drawn from %v)", n, flagSets)}, nil
+	return vs, map[string]any{"ppmap_stage": fmt.Sprintf("%d inputs x 4 map orders (+ 2 other working directories when a tree exists) on the pp binary built from the same overlay (flags drawn from %v)", n, flagSets)}, nil
 }
